@@ -1,4 +1,5 @@
 import Babble.Proofs.HGBlocks
+import Babble.Proofs.HGRounds
 /-! # C02 — finality: blocks are delivered once, in order, and never change
     Statements about the operational model `Babble.HG` (tied to `hashgraph.go` by the correspondence
     run of the C02 check): `runAll s es` is a node's life — any sequence of insertion attempts, each
@@ -61,6 +62,27 @@ theorem last_block_index (genesis : List Nat) (es : List Ev) :
     (runAll (St.init genesis) es).lastBlock = ((runAll (St.init genesis) es).blocks.length : Int) - 1 := by
   have h := (runAll_spec 0 (St.init genesis) es (init_inv genesis)).1
   have := h.2; omega
+
+/-- **a block's round received is strictly greater than that of the previous block**: for a node
+    started from genesis and every sequence of insertion attempts of fresh events (admissible or
+    not, any validator-set behaviour).  The invariant behind it (`HG.RInv`): rounds are created
+    contiguously, each is queued exactly once — when its first event is divided — behind everything
+    pending, the `decided` latch is never cleared, and `ProcessDecidedRounds` consumes the queue
+    from its head; a late witness therefore never re-opens or re-orders a processed round -/
+theorem round_received_strictly_increasing (genesis : List Nat) (es : List Ev)
+    (hes : ∀ e ∈ es, e.round = none) :
+    (runAll (St.init genesis) es).blocks.Pairwise (fun a b => a.rr < b.rr) :=
+  blocks_rr_increasing genesis es hes
+
+/-- … in particular two delivered blocks never have the same round received -/
+theorem one_block_per_round_received (genesis : List Nat) (es : List Ev) (hes : ∀ e ∈ es, e.round = none)
+    (i j : Nat) (hi : i < (runAll (St.init genesis) es).blocks.length) (hj : j < (runAll (St.init genesis) es).blocks.length)
+    (h : ((runAll (St.init genesis) es).blocks[i]).rr = ((runAll (St.init genesis) es).blocks[j]).rr) : i = j := by
+  have hp := round_received_strictly_increasing genesis es hes
+  rcases Nat.lt_trichotomy i j with hlt | heq | hgt
+  · have := List.pairwise_iff_getElem.mp hp i j hi hj hlt; omega
+  · exact heq
+  · have := List.pairwise_iff_getElem.mp hp j i hj hi hgt; omega
 
 /-- non-vacuity: a reachable state with a delivered block exists (a single validator whose two
     events carry a transaction; the second event decides round 0 … checked by evaluation in the
